@@ -114,6 +114,16 @@ func installKnobs(s *sim.Sim, k plan.Knobs) {
 		return 0, false
 	}
 	if k.YieldDensity > 0 {
+		// the gnet loop notices posted work (AsyncWrite, Close) a little later
+		var wakeN uint64
+		vgnet.WakeDelay = func() time.Duration {
+			n := atomic.AddUint64(&wakeN, 1)
+			if !s.Coin("gnetwake", n, 0.5) {
+				return 0
+			}
+			s.Fault("gnet_wake_delay")
+			return s.Dur("gnetwaked", n, 1_000, 300_000)
+		}
 		// inserted scheduling points (vsync.Y): short yields only, at a third of
 		// the density - there are many more of them than lock sites, and long
 		// stalls at each would add up to more than any oracle's slack
@@ -208,6 +218,7 @@ func uninstallKnobs() {
 	vsync.HookY = nil
 	vsync.HookU = nil
 	vsync.Pick = nil
+	vgnet.WakeDelay = nil
 	vbytes.Drain()
 	vbytes.Report = nil
 	vsync.PoolPoison = false
